@@ -740,14 +740,17 @@ def gen_mix_program(rng, path, nprocs, fmt=None, hints='-', focus=None):
     p.all('create %s %d clobber %s' % (path, fmt, hints))
     nd = rng.range(1, 3)
     dims = [('d%d' % i, rng.range(5, 10) if i == 0 else rng.range(3, 8)) for i in range(nd)]
+    if focus == 'burst':
+        nd = rng.range(2, 3)
+        dims = [('d%d' % i, rng.range(12, 18) if i == 0 else rng.range(8, 12)) for i in range(nd)]
     hasrec = rng.chance(1, 2) or focus == 'recvarn'
     types = XT_ALL if fmt == 5 else XT_CLASSIC
     types = [t for t in types if t != 'char']
     vars_ = []
     for i in range(rng.range(1, 3)):
-        k = rng.range(1, nd)
+        k = nd if focus == 'burst' else rng.range(1, nd)
         vd = dims[:k] if rng.chance(2, 3) else [rng.choice(dims) for _ in range(k)]
-        isrec = hasrec and (rng.chance(1, 2) or focus == 'recvarn')
+        isrec = hasrec and (rng.chance(1, 2) or focus == 'recvarn') and not (focus == 'burst' and i == 0)
         if isrec:
             vd = [('t', 0)] + vd[:2]
         vars_.append(Var('v%d' % i, rng.choice(types), vd, isrec))
@@ -781,6 +784,11 @@ def gen_mix_program(rng, path, nprocs, fmt=None, hints='-', focus=None):
         owner = [rng.below(nprocs) for _ in regs]
         mt = rng.choice(MT_FOR[v.xt])
         mode = rng.choice(['varn', 'varn', 'iput', 'iput', 'bput', 'mixed'] + (['varn'] * 6 if focus == 'recvarn' else []))
+        ncell = 1
+        for n_ in shape:
+            ncell *= n_
+        if focus == 'burst' and ncell >= 130 * nprocs and not v.isrec:
+            mode = 'burst'
         coll = rng.chance(1, 2)
         cellvals = {}
         for st, ct, sd in regs:
@@ -788,7 +796,31 @@ def gen_mix_program(rng, path, nprocs, fmt=None, hints='-', focus=None):
                 cellvals[c] = vs.take(1)[0]
         if not coll:
             p.all('begin_indep')
-        if mode == 'varn':
+        if mode == 'burst':
+            # many tiny requests pending at once (130-300 per rank): the request queues, the per-request arrays and the
+            # attached-buffer occupancy table must grow while requests are pending
+            allc = region_cells([0] * len(shape), shape, [1] * len(shape))
+            per = rng.range(130, min(300, len(allc) // nprocs))
+            kind = rng.choice(['bput', 'iput'])
+            cellvals = {}
+            if kind == 'bput':
+                p.all('attach 65536')
+            for q in range(per):
+                texts = {}
+                for r in range(nprocs):
+                    c = allc[(q * nprocs + r) * 7919 % len(allc)] if False else allc[r * per + q]
+                    cellvals[c] = vs.take(1)[0]
+                    reqn += 1
+                    texts[r] = nb_text(kind, 'q%d' % reqn, 'var1', v, mt, 'c', list(c), None, None, None, [cellvals[c]])
+                p.per_rank(texts)
+            p.all('inq_nreqs')
+            p.all('waitall %s %s' % ('c' if coll else 'i', rng.choice(['ALL', 'PUT'])))
+            p.all('inq_nreqs')
+            if kind == 'bput':
+                p.all('detach')
+            regs, owner = [], []
+            p.tags.add('mix-burst-%s' % kind)
+        elif mode == 'varn':
             texts = {}
             for r in range(nprocs):
                 mine = [regs[i] for i in range(len(regs)) if owner[i] == r]
@@ -839,6 +871,25 @@ def gen_mix_program(rng, path, nprocs, fmt=None, hints='-', focus=None):
             p.all('inq_nreqs')
             if use_b:
                 p.all('detach')
+        # read-your-own-writes: before any sync/flush, some ranks read back a region they have just written (request complete),
+        # through nonblocking gets completed with NC_GET_REQ_ALL / an id list / NC_REQ_ALL, in the same data mode
+        if regs and rng.chance(1, 2):
+            texts, rn = {}, {}
+            for r in range(nprocs):
+                mine = [regs[i] for i in range(len(regs)) if owner[i] == r]
+                if mine and rng.chance(2, 3):
+                    st_, ct_, sd_ = rng.choice(mine)
+                    reqn += 1
+                    rn[r] = 'g%d' % reqn
+                    texts[r] = nb_text('iget', rn[r], 'vars', v, rng.choice(MT_FOR[v.xt]), rng.choice(['c', 't', 'v2']), st_, ct_, sd_, None, None)
+            if texts:
+                p.per_rank(texts)
+                how = rng.choice(['GET', 'GET', 'ALL', 'list'])
+                if how == 'list':
+                    p.per_rank({r: 'wait %s %d %s' % ('c' if coll else 'i', 1 if r in rn else 0, rn.get(r, '')) for r in range(nprocs) if coll or r in rn})
+                else:
+                    p.all('waitall %s %s' % ('c' if coll else 'i', how))
+                p.tags.add('mix-read-own-writes-before-sync')
         p.all('barrier')
         if not coll:
             p.all('end_indep')
